@@ -38,6 +38,7 @@ func buildPlan(tier string) concfs.Plan {
 	for _, fs := range []string{"MemFS", "OrefaFS"} {
 		pl.Programs = append(pl.Programs, concfs.Pairs(fs, false, concfs.Templates(fs, false, true))...)
 		pl.Programs = append(pl.Programs, lockOrderPrograms(fs)...)
+		pl.Programs = append(pl.Programs, concfs.HandlePrograms(fs)...)
 	}
 
 	if tier == "thorough" {
@@ -71,6 +72,10 @@ func main() {
 
 		ic := runIdmConc(tier, rep, idl)
 		for k, v := range ic {
+			cov[k] = v
+		}
+
+		for k, v := range runDirProto(tier, rep) {
 			cov[k] = v
 		}
 
